@@ -24,6 +24,35 @@ def gen_env(rng, n, R=10, den=1, kinds=("S", "S", "S", "C", "D", "U"), tries=300
     return None
 
 
+def ring(rng, center, vs, ro, ri):
+    """region between the polygon vs (star-shaped about the origin) scaled by ro and by ri < ro, moved to center"""
+    sc = lambda k: [(center[0] + k * p[0], center[1] + k * p[1]) for p in vs]
+    return ("C", [G.verts_to_jordan(G.ccw(sc(ro))), G.verts_to_jordan(G.cw(sc(ri)))])
+
+
+def nested_env(rng, nlevels=None):
+    """deeply nested operands: rings inside the holes of rings, islands inside holes (3-5 levels of nesting)"""
+    radii = sorted(rng.sample([1, 2, 3, 4, 5, 6, 7, 8, 9, 10], nlevels or rng.choice([3, 4, 4, 5])), reverse=True)
+    for _ in range(200):
+        vs = G.star_polygon(rng, n=rng.randint(3, 6), R=4, center=(0, 0), rmin=0.6)
+        # the scaled copies must be strictly nested: the origin strictly inside and the polygon star-shaped about it
+        sc = lambda k: [(k * p[0], k * p[1]) for p in vs]
+        if G.point_strictly_inside(vs, (F(0), F(0))) and all(G.poly_inside_poly(sc(a), sc(b)) for a, b in zip(radii[1:], radii)):
+            break
+    else:
+        vs = [(F(2), F(-1)), (F(1), F(2)), (F(-2), F(1)), (F(-1), F(-2))]
+    c = (F(rng.randint(-5, 5)), F(rng.randint(-5, 5)))
+    a = ring(rng, c, vs, radii[0], radii[1])
+    if len(radii) >= 4:
+        b = ring(rng, c, vs, radii[2], radii[3])
+    else:
+        b = ("S", G.verts_to_jordan(G.ccw([(c[0] + radii[2] * p[0], c[1] + radii[2] * p[1]) for p in vs])))
+    if len(radii) == 5:
+        island = ("S", G.verts_to_jordan(G.ccw([(c[0] + radii[4] * p[0], c[1] + radii[4] * p[1]) for p in vs])))
+        b = ("D", [b, island])
+    return [a, b] if rng.random() < 0.5 else [b, a]
+
+
 def crossing_count(env):
     js = [O.shape_jordans(s) for s in env]
     n = 0
@@ -95,6 +124,10 @@ def gen_cases(ctx, nsingle, nnested, R=10, float_stream=True):
         yield {"env": env, "expr": (op, ("var", 0), ("var", 1)), "num": num}
         if i % 7 == 0:
             yield {"env": env[:1], "expr": (rng.choice(["~", "neg"]), ("var", 0)), "num": num if num != "float" else "frac"}
+    for i in range(max(3, nsingle // 10)):
+        env = nested_env(rng, nlevels=[4, 5, 3][i % 3])
+        for op in OPS2:
+            yield {"env": env, "expr": (op, ("var", 0), ("var", 1)), "num": "frac"}
     for i in range(nnested):
         nv = rng.choice([2, 3, 3])
         env = gen_env(rng, nv, R=rng.choice([6, 10]), den=rng.choice([1, 1, 2]), kinds=("S", "S", "S", "C", "U", "D"))
